@@ -39,11 +39,12 @@ class Script:
     def criteria(self, alpha, ml, rmse):
         conv = self.plans[min(self.pass_no, len(self.plans) - 1)][1]
         self.log.append(("criteria", self.pass_no, conv))
+        self.log.append(("alpha", self.pass_no, alpha))
         self.pass_no += 1
         return conv
 
 
-def build(initial_level=2, maximum_level=4, initial_mc_paths=6, plans=(([8], False), ([8], True)), seed=None, h=0.25, fixed=False, spot_payoff=False):
+def build(initial_level=2, maximum_level=4, initial_mc_paths=6, plans=(([8], False), ([8], True)), seed=None, h=0.25, fixed=False, spot_payoff=False, rates=(1.0, 1.5, 1.0), constant_payoff=False):
     from rpylib.model.levymodel.mixed.hem import HEMParameters, ExponentialOfHEMModel
     from rpylib.grid.spatial import CTMCUniformGrid
     from rpylib.process.coupling.couplingmarkovchain import CouplingMarkovChain
@@ -59,10 +60,10 @@ def build(initial_level=2, maximum_level=4, initial_mc_paths=6, plans=(([8], Fal
     process = CouplingMarkovChain(model=model, method=SamplingMethod.INVERSION, grid=grid)
     counter = Counter()
     # spot_payoff: the payoff is the terminal spot itself (continuous in the variates: equal rows <=> shared variates)
-    product = Product(payoff_underlying=Spot(), payoff=PayoffOnTheFly((lambda u: float(np.ravel(u)[0])) if spot_payoff else counter), maturity=0.5)
+    product = Product(payoff_underlying=Spot(), payoff=PayoffOnTheFly((lambda u: 1.0) if constant_payoff else ((lambda u: float(np.ravel(u)[0])) if spot_payoff else counter)), maturity=0.5)
     script = Script(plans)
     crit = ConvergenceCriteria(criteria=script.criteria, compute_mc_paths=script.compute_mc_paths)
-    cfg = ConfigurationMultiLevel(convergence_rates=ConvergenceRates(alpha=1.0, beta=1.5, gamma=1.0), convergence_criteria=crit, initial_level=initial_level,
+    cfg = ConfigurationMultiLevel(convergence_rates=ConvergenceRates(alpha=rates[0], beta=rates[1], gamma=rates[2]), convergence_criteria=crit, initial_level=initial_level,
                                   maximum_level=maximum_level, initial_mc_paths=initial_mc_paths, seed=seed, nb_of_processes=1)
     eng = Engine(configuration=cfg, coupling_process=process)
     return eng, product, counter, script
